@@ -1189,5 +1189,17 @@ func main() {
 			r.Unreached = append(r.Unreached, b)
 		}
 	}
+	// an infrastructure problem that comes with a model disagreement or an unclassified oracle failure is a
+	// result of the run, not a reason to discard it
+	if r.InfraError != "" {
+		bad := len(r.Disagreements) > 0
+		for _, f := range r.OracleFailures {
+			bad = bad || f.Sig == ""
+		}
+		if bad {
+			r.Notes = append(r.Notes, "not reported as infra: "+r.InfraError)
+			r.InfraError = ""
+		}
+	}
 	r.Write(o.Out)
 }
